@@ -85,3 +85,8 @@ package keeper
 //@   property C18
 //@   requires b >= 0 && b <= 100 * ONE && 0 <= u && u <= ONE && 0 <= rf && rf <= ONE
 //@   ensures #c18-lend-le-borrow: decMul(decMul(b, u), ONE - rf) <= b
+
+// GetBorrows: the stored borrow-id list — a deterministic function of the lend store.
+//@ func (k Keeper) GetBorrows
+//@   property C15, C09
+//@   pure
